@@ -46,7 +46,7 @@ def all_cases(ctx):
         cs.append((("unroll",) + cid, ("unroll", spec)))
     for cid, spec, d, q in F.seq_circuits():
         for afo in (False, True):
-            for iv in ("none", "0", "1", "dict") + (() if ctx.quick else ("dictx",)):
+            for iv in ("none", "0", "1", "dict", "dictrev", "dictpartial") + (() if ctx.quick else ("dictx",)):
                 for ru in (False, True):
                     for ign in (False, True):
                         cs.append((cid + (afo, iv, ru, ign), ("seq", spec, d, q, afo, iv, ru, ign)))
@@ -156,6 +156,10 @@ def do_seq(ctx, tx, cid, p, NS):
         init = iv
     elif iv == "dict":
         init = {f: "01"[i % 2] for i, f in enumerate(flops)}
+    elif iv == "dictrev":
+        init = {f: "10"[i % 2] for i, f in reversed(list(enumerate(flops)))}
+    elif iv == "dictpartial":
+        init = {flops[-1]: "1"}
     else:
         init = {f: "x01"[i % 3] for i, f in enumerate(flops)}
     ctx.sample({"case": cid, "circuit": spec})
